@@ -13,7 +13,7 @@ from typing import Any
 from .core import Func, U, own_nodes
 
 VERIF = pathlib.Path(__file__).resolve().parent.parent
-EVIDENCE_DIR = VERIF / "evidence"
+EVIDENCE_DIR = pathlib.Path(os.environ["VERIF_EVIDENCE_DIR"]) if os.environ.get("VERIF_EVIDENCE_DIR") else VERIF / "evidence"
 REPLAY_DIR = EVIDENCE_DIR / "replay"
 KNOWN_FINDINGS = VERIF / "known_findings.json"
 
